@@ -203,7 +203,7 @@ RpMatches ==
 \* nothing is left to do
 SettledAgreed ==
     (l > 1 /\ Rec[l - 1].ev = "Settled")
-        => Settled /\ (rp.problems = <<>> \/ ~NoDangling \/ ~NoStuckRequest)
+        => Settled /\ (rp.problems = <<>> \/ ~NoDangling \/ ~NoStuckRequest \/ ~NoLostCert)
 
 \* C03: whatever stopped being current under a key is on that key's CRL for
 \* as long as the key publishes one (objects do not expire within a run),
